@@ -1371,6 +1371,7 @@ Lemma ren_final K lb f : FinSt K lb f -> gforest (G f0) -> G f0 new = None -> ne
   gforest (G f).
 Proof.
   intros (HI & H1 & H2 & H3 & H4) HG Hfree Hn0' Ho0 Hgo Lnw HK PK.
+  clear Hnp Hcl0.     (* boolean facts about e: keep them out of lia's reach, the lemma does not depend on e *)
   apply (gforest_ext (g_ren (G f0) old new)); [|now apply gforest_ren].
   assert (Hloop : G f0 old <> Some old).
   { intros E. destruct (HG _ _ E) as (k & Hk). assert (greach (G f0) old (S k)) by (econstructor; eauto).
